@@ -35,7 +35,7 @@ ASSUMPTIONS = ["Rust semantics of Vec/usize/f64 as modelled (IEEE-754 binary64, 
                "the three libm-backed primitives are an oracle table recorded from the implementation's own run, not modelled",
                "accuracy of the returned roots (backward error) and convergence of Laguerre's iteration are searched, not proved; "
                "seven failure classes are recorded known findings: six decided by the model's trace (KF-C10-A/B/C/E/F/G) and one decided by the input alone (KF-C10-H, common scale of the coefficients)"]
-UNPROVED = ["normwise backward error of the returned values in f64 (tie + search; false of the code on the classes KF-C10-A/B/C/E/F/G/H; the UNPOLISHED backward-error clause at degree >= 4 with every laguer call converged is excused (KF-C10-C) only when the reference roots span a factor >= 10 in modulus; otherwise such a failure is reported as a violation -- the search has seen ONE such input on the unchanged source in 15 quick seeds: VERIF_SEED=8, family random-cplx, degree 11, nine roots of modulus ~1 and two of modulus ~7.5-8 (spread 8.02), backward error 5.5e-9 > 1e-10, findings/C10-KF-C-spread.md)",
+UNPROVED = ["for degree <= 2 (and the cubic branches under explicit accuracy / no-cancellation hypotheses) the residual / backward / forward error of the closed forms IS proved in the standard rounding model over C (block quadround of Props/C10.v: quadratic_residual_bound |a x^2 + b x + c| <= 16 eps (|a||x|^2 + |b||x| + |c|) with no hypothesis on the discriminant; local form = no overflow / underflow on this input, which is exactly what KF-C10-H violates); NOT proved: the transfer to binary64, polishing (refine = true), degree >= 4", "normwise backward error of the returned values in f64 (tie + search; false of the code on the classes KF-C10-A/B/C/E/F/G/H; the UNPOLISHED backward-error clause at degree >= 4 with every laguer call converged is excused (KF-C10-C) only when the reference roots span a factor >= 2 in modulus; otherwise such a failure is reported as a violation -- the search has seen ONE such input on the unchanged source in 15 quick seeds: VERIF_SEED=8, family random-cplx, degree 11, nine roots of modulus ~1 and two of modulus ~7.5-8 (spread 8.02), backward error 5.5e-9 > 1e-10, findings/C10-KF-C-spread.md)",
             "convergence of Laguerre's iteration (false of the code from x = 0 on nearly symmetric deflated polynomials: KF-C10-A)",
             "one-to-one correspondence with the true roots (search: prescribed-root families, and on every other case of degree >= 2 certified reference roots from an independent solver, when well separated and well conditioned); FALSE of the code on KF-C10-G (refine = true, degree >= 4: two polishing calls entered with different drifted estimates end on the same root, a well-separated true root is matched by no returned value), on KF-C10-B (a0 = 0 with refinement) and on KF-C10-H (common scale)",
             "statelessness of Polynomial::roots (search: the same object asked twice / cloned / fresh, bitwise)",
@@ -839,7 +839,7 @@ def classify(case, items, kind, root=None, unmatched=None):
         if kind == "backward-error" and not refine: return "KF-C10-F"
         if kind == "non-finite" and (not refine or (root is not None and polish[root][2] == 0)): return "KF-C10-F"
     # KF-C10-C: unpolished deflation drift: degree >= 4, every call converged / stalled with finite values
-    #           AND (the documented cause) the root magnitudes span orders: max|r| / min|r| >= 10 on the reference roots (numpy,
+    #           AND (the documented cause) the root magnitudes span orders: max|r| / min|r| >= KF_C_MIN_SPREAD (= 2) on the reference roots (numpy,
     #           independent of the code); when no usable reference roots exist the trace condition alone decides
     if kind == "backward-error" and (not refine) and n >= 4 and all(t[0] in (0, 1) for t in tr) and all(t[3] == 1 for t in tr):
         ref = reference_roots(coeffs)
